@@ -26,7 +26,7 @@ use serde::{Deserialize, Serialize};
 
 use cfg::{Cfg, Focus, Payload, Populate, Start, Strategy, Variant};
 use model::{HeldM, Model, PubM, RecvExpect, SendExpect, Seq, SubM};
-use real::{KSlice, KU64, RStrategy, Real, Recv, ServiceSettings, World};
+use real::{KSlice, KU64, KWide, RStrategy, Real, Recv, ServiceSettings, World};
 
 #[derive(Clone, Copy, Debug, PartialEq, Eq)]
 enum Mode {
@@ -145,6 +145,8 @@ fn new_world(c: &Cfg) -> Result<Box<dyn Real>, String> {
     Ok(match (c.variant, c.payload) {
         (Variant::Local, Payload::U64) => Box::new(World::<local::Service, KU64>::new(&st)?),
         (Variant::Local, Payload::Slice) => Box::new(World::<local::Service, KSlice>::new(&st)?),
+        (Variant::Local, Payload::Wide) => Box::new(World::<local::Service, KWide>::new(&st)?),
+        (Variant::Ipc, Payload::Wide) => Box::new(World::<ipc::Service, KWide>::new(&st)?),
         (Variant::Ipc, Payload::U64) => Box::new(World::<ipc::Service, KU64>::new(&st)?),
         (Variant::Ipc, Payload::Slice) => Box::new(World::<ipc::Service, KSlice>::new(&st)?),
     })
